@@ -248,6 +248,13 @@ func init() {
 	// a lookup that accepts a slot beyond the fill count follows a reference into a node that has
 	// gone back to the pool – and since then belongs to another tree
 	impliedProps["R19"] = append(impliedProps["R19"], "C12")
+	// the copies disagree on how the last leaf is unlinked: one of them leaves an emptied tree that
+	// is not like a new one
+	impliedProps["R36"] = append(impliedProps["R36"], "C12")
+	// a conversion loop that stops short of the last table entry drops the child under 0xFF: its
+	// keys and values are no longer reachable although they were never deleted (C18)
+	impliedProps["R10"] = append(impliedProps["R10"], "C18")
+	impliedProps["R21"] = append(impliedProps["R21"], "C18")
 	impliedProps["R09"] = append(impliedProps["R09"], "C12")
 	// the wrapped counter of a full node of the widest class
 	impliedProps["R56"] = append(impliedProps["R56"], "C15", "C06", "C01", "C05", "C10", "C11", "C12", "C17")
